@@ -28,10 +28,10 @@
 (*                                                                         *)
 (* Two verdicts: Explains = the property (REJECT when false); Exact =      *)
 (* conformance with the machine layer where the property leaves freedom    *)
-(* (which entries sample keeps, whether reduce drops an entry whose mass   *)
-(* is below the tolerance, rank of tied PEPs, number of likelihood         *)
+(* (which entries sample keeps, rank of tied PEPs, number of likelihood    *)
 (* evaluations): DRIFT, not an alarm; the model state is re-synchronised   *)
-(* from the observation.                                                   *)
+(* from the observation (also after reduce, which may or may not drop an   *)
+(* entry whose mass is below the tolerance).                               *)
 (***************************************************************************)
 EXTENDS Cdf, Bayes, Json, IOUtils
 
@@ -124,12 +124,13 @@ CdfExplains(cfg, sq, c, r) ==
 
 \* machine layer, where the property leaves freedom
 CdfExact(cfg, sq, c, r) ==
-    CASE c.op = "reduce" -> r.vals = ValsOf(ReduceDef(sq))
-      [] c.op \in {"sample", "sample_fresh"} -> (c.a.n <= 1 \/ r.vals = ValsOf(SampleM(sq, c.a.n)))
+    \* (reduce has no second verdict: whether an entry whose mass is below the tolerance survives depends on
+    \* rounding -- a total of one can overshoot and be capped before the last entry is added)
+    CASE c.op \in {"sample", "sample_fresh"} -> (c.a.n <= 1 \/ r.vals = ValsOf(SampleM(sq, c.a.n)))
       [] OTHER -> TRUE
 CdfAfter(cfg, sq, c, r) ==
     CASE c.op \in {"from_pmf", "from_cdf"} -> Built(cfg, c)
-      [] c.op = "reduce" -> PickByVals(sq, r.vals)                 \* = ReduceDef(sq) unless DRIFT
+      [] c.op = "reduce" -> PickByVals(sq, r.vals)                 \* = ReduceDef(sq) up to sub-tolerance masses
       [] c.op = "sample" -> IF c.a.n <= 1 THEN sq ELSE PickByVals(sq, r.vals)
       [] c.op = "shift_values" -> Shifted(sq, c.a.k)
       [] OTHER -> sq
